@@ -33,3 +33,11 @@ func init() {
 		props[id] = propCfg{Level: "model_checking", Rule: ruleB, QuickS: 200}
 	}
 }
+
+const ruleC = "bounded-exhaustive enumeration of the input/configuration space described per unit, every element executed on the real implementation (in-process through the harness, or through the CLI binary) and compared with a reference model written from the property statement; distinct = distinct (outcome class) observed"
+
+func init() {
+	for _, id := range []string{"C08", "C10", "C15", "C16", "C19"} {
+		props[id] = propCfg{Level: "model_checking", Rule: ruleC}
+	}
+}
